@@ -176,3 +176,26 @@ def retracting_scan_whole_map(ctx, rule):
         ctx.ob(rule, f'on_remove_worker|Retracting->{v}|found by a whole-map scan', ok,
                'the loop that re-homes tasks being retracted from the lost worker iterates over the whole TaskMap (tasks_mut / tasks / task_ids): a Retracting task without a redirect entry is reachable through no other index, and left behind it names a dead worker in every later message', orw.loc(bi, s_))
     ctx.floor(rule, n, 1, 'state writes from Retracting in on_remove_worker')
+
+
+def replay_batch_lookup_per_id(ctx, rule, events=('TasksAborted', 'TasksCanceled')):
+    """A batched record may span jobs (prune filters its ids per job): the replay looks the job up for every id."""
+    from hqrules.templates import same_iteration_has, local_field_sources, loop_headers_containing
+    prog = ctx.prog
+    lef = prog.body(LEF)
+    HGET = ('HashMap::get_mut', 'HashMap::get', 'StateRestorer::get_job_mut')
+    look = []
+    for bi, t, c in lef.calls():
+        if bi in lef.reachable() and (c or '').endswith(HGET):
+            l = op_local(t['args'][0])
+            fs = local_field_sources(lef, l, through_mutation=False) if l is not None else set()
+            if (c or '').endswith('get_job_mut') or ('jobs' in fs and 'tasks' not in fs):
+                look.append(bi)
+    for ev in events:
+        sites = [bi for o, b, bi, s in construct_sites(prog, RTI) if b.path == lef.path and (variants_at(lef, EP, bi) or set()) == {ev}]
+        sites += [bi for bi, st, pl, fs in lef.field_writes() if fs and fs[-1][0] == 'state' and fs[-1][1] == RTI and (variants_at(lef, EP, bi) or set()) == {ev}]
+        sites = [x for x in sorted(set(sites)) if loop_headers_containing(lef, x)]
+        ctx.floor(rule, len(sites), 1, f'task-record writes in the {ev} replay loop')
+        ok = all(same_iteration_has(lef, x, look) and x not in lef.reach_from(loop_headers_containing(lef, x)[:1], avoid=look) for x in sites)
+        ctx.ob(rule, f'load_event_file|{ev}|job looked up per id', ok,
+               f'inside the loop over the ids of a {ev} batch the job is looked up for each id (a lookup hoisted out of the loop applies every id to the job of the first one; pruning removes the ids of completed jobs, so the first id - and the restored state - changes)', lef.loc(sites[0]))
